@@ -222,6 +222,9 @@ func RunHistory(w *World, def *CheckDef, profName string, seed uint64, idx int, 
 		}
 	}()
 	rep.Steps = r.Idx
+	if def.Replays > 0 && len(rep.Viol) == 0 && len(rep.Inconcl) == 0 {
+		compareReplays(w, def, r, rep)
+	}
 	rep.WallMs = time.Since(start).Milliseconds()
 	if len(rep.Samples) == 0 && len(r.Hist.Steps) > 0 {
 		n := min(len(r.Hist.Steps), 12)
@@ -630,5 +633,54 @@ func DumpSnap(w *World, s *Snap) {
 	}
 	for _, a := range []string{w.ModAddr.String(), w.PoolAddr.String(), w.FcAddr.String()} {
 		fmt.Printf("  bal %s %s\n", w.Name(a), s.Bal[a])
+	}
+}
+
+// compareReplays (C19): replay the explicit history on sibling branches and compare the digests.
+func compareReplays(w *World, def *CheckDef, r *Runner, rep *Report) {
+	var first []string
+	for _, m := range r.Mons {
+		if c, ok := m.(*MonC19); ok {
+			first = c.Digests
+		}
+	}
+	hist := r.Hist
+	for k := 0; k < def.Replays; k++ {
+		rep2 := NewReport(def.Prop, hist.Profile, hist.Index)
+		r2 := NewRunner(w, hist.Config, rep2)
+		rep2.runner = r2
+		mon := NewMonC19(r2)
+		r2.Mons = []Monitor{mon}
+		r2.ProbeEvery = 0
+		func() {
+			defer func() {
+				if p := recover(); p != nil {
+					rep.Inconclusive(fmt.Sprintf("replay panicked: %v", p))
+				}
+			}()
+			for _, s := range hist.Steps {
+				if r2.Halt {
+					break
+				}
+				r2.Step(s)
+			}
+			if !r2.Halt {
+				r2.Finish()
+			}
+		}()
+		rep.Eval("C19.replay-compare")
+		n := min(len(first), len(mon.Digests))
+		for i := 0; i < n; i++ {
+			rep.Eval("C19.digest")
+			if first[i] != mon.Digests[i] {
+				rep.Violate("C19", "C19.digest", i, "replay %d of the same history on a sibling branch diverges at record %d: first run %q, replay %q", k+1, i, first[i], mon.Digests[i])
+				return
+			}
+		}
+		if len(first) != len(mon.Digests) {
+			rep.Violate("C19", "C19.digest", n, "replay %d produced %d records, the first run %d", k+1, len(mon.Digests), len(first))
+			return
+		}
+		rep.Class("C19.replays-compared")
 	}
 }
